@@ -82,11 +82,13 @@ pub fn evaluate(rule: Rule, times: &[i64], values: &[f64], x: i64) -> Local {
             let (t1, t2, t) = (x1 - x0, x2 - x0, xf - x0);
             if index == 0 {
                 // first node presumed 1: flat zero rate of the second node over the first interval
-                cond = 1.0 + y2.ln().abs() * (t / t2).abs();
+                // (the exponent t/t2 carries its own rounding error whatever ln y is - all-ones
+                // curves have ln y = 0 - so |ln y| is floored at 0.01 for the conditioning)
+                cond = 1.0 + y2.ln().abs().max(0.01) * (t / t2).abs();
                 power_form(y1, y2, 0.0, t / t2)
             } else {
                 let w = (t - t1) / (t2 - t1);
-                let (r1, r2) = (y1.ln().abs() / t1, y2.ln().abs() / t2);
+                let (r1, r2) = (y1.ln().abs().max(0.01) / t1, y2.ln().abs().max(0.01) / t2);
                 cond = 1.0 + t.abs() * (r1 * (1.0 + w.abs()) + r2 * w.abs());
                 power_form(y1, y2, (1.0 - w) * t / t1, w * t / t2)
             }
